@@ -471,6 +471,13 @@ def check_instant(env, t, tp, sp, narrow, out):
             v, b = val(env, f, {'xp': tp, 'xd': t})
             if v is not want:
                 bad('%s with xp = %s, xd = %s is %r' % (f, tp.isoformat(), t.isoformat(), v), want, v, b)
+    if post and (t.second % 5 == 0 or t.microsecond) and (t.hour or t.minute or t.second or t.microsecond):
+        # ... also against plain numbers: the whole-day serial (an int) is before the instant, the next day after it
+        day = t.toordinal() - EPOCH_ORD
+        for f, want in (('xk<xd', True), ('xk=xd', False), ('xd>xk', True), ('xk>=xd', False), ('xn>xd', True), ('xd<=xn', True)):
+            v, b = val(env, f, {'xk': day, 'xn': day + 1, 'xd': t})
+            if v is not want:
+                bad('%s with xk = %d, xn = %d (whole-day serials), xd = %s is %r' % (f, day, day + 1, t.isoformat(), v), want, v, b)
     v, b = val(env, 'xd+0', {'xd': t})
     if not near_dt(v, t):
         bad('xd+0 with xd = %s does not return the same date-time (0.5 ms)' % t.isoformat(), enc(t), v, b)
